@@ -60,7 +60,7 @@ Start(M, f, args, hostq) ==
    lo |-> args \o [i \in 1..Len(M.funcs[f].locals) |-> ZeroOf(M.funcs[f].locals[i])],
    fr |-> <<>>, gl |-> [i \in 1..Len(M.globals) |-> M.globals[i].init],
    mem |-> InitMem(M), pg |-> M.pages, res |-> <<>>, steps |-> 0,
-   hostq |-> hostq, hostlog |-> <<>>,
+   hostq |-> hostq, hostlog |-> <<>>, grows |-> <<>>,
    w0 |-> InvokeAfter(0, Len(M.funcs[f].locals)), w1 |-> InvokeAfter(1, Len(M.funcs[f].locals))]
 
 TrapC(c, k) == [c EXCEPT !.status = "trap", !.trapk = k]
@@ -196,10 +196,11 @@ Step(M, ctl, c) ==
                             !.mem = MemPut(c.mem, U32Int(base) + U32Int(ins.off), ValueBytes(v, ins.n))]
     [] op = "memory.size" -> [nx EXCEPT !.st = Append(c.st, FromNat(c.pg, 2))]
     [] op = "memory.grow" ->
-         LET d == Last(c.st) IN
-         IF d[2] # 0 \/ c.pg + d[1] > M.maxPages
-         THEN [nx EXCEPT !.st = Append(Front(c.st), AllOnes(2))]
-         ELSE [nx EXCEPT !.st = Append(Front(c.st), FromNat(c.pg, 2)), !.pg = c.pg + d[1]]
+         LET d == Last(c.st)
+             ng == [nx EXCEPT !.grows = Append(c.grows, d)]     \* the request is announced whether or not it succeeds
+         IN IF d[2] # 0 \/ c.pg + d[1] > M.maxPages
+            THEN [ng EXCEPT !.st = Append(Front(c.st), AllOnes(2))]
+            ELSE [ng EXCEPT !.st = Append(Front(c.st), FromNat(c.pg, 2)), !.pg = c.pg + d[1]]
 
 RECURSIVE RunFuel(_, _, _, _)
 RunFuel(M, ctl, c, fuel) ==
@@ -220,6 +221,6 @@ MemSeq(mem) ==
 Outcome(c) ==
   IF c.status = "done"
   THEN [status |-> "done", res |-> c.res, gl |-> c.gl, pg |-> c.pg, mem |-> MemSeq(c.mem), steps |-> c.steps,
-        hostlog |-> c.hostlog, w0 |-> c.w0, w1 |-> c.w1]
+        hostlog |-> c.hostlog, w0 |-> c.w0, w1 |-> c.w1, grows |-> c.grows]
   ELSE [status |-> c.status, trapk |-> c.trapk, steps |-> c.steps, hostlog |-> c.hostlog, w0 |-> c.w0, w1 |-> c.w1]
 =============================================================================
